@@ -184,8 +184,16 @@ def run_case(case, ctx):
         ops.append(["init", "h%d" % n])
     for n in range(min(ninit, 2)):
         ops.append(["init", "h%d" % n])  # idempotence
-    ops.append(["session", 0])
     ids = [W.ref_id(sp) for sp in sps]
+    # entries of the workspace that are NOT jobs but share (or are) an id prefix: they take no part in the
+    # resolution of ids and prefixes (only exactly-id-named directories are jobs)
+    if case.get("plants", True):
+        for i in ids[:2]:
+            ops.append(["plant", 0, i + ".tar"])
+            ops.append(["plant", 0, i[:12]])
+        for a in case["absent"][:2]:
+            ops.append(["plant", 0, a + "_notes"])
+    ops.append(["session", 0])
     q = 0
     # every prefix length of (a sample of) the ids, initialised or not, plus absent prefixes
     sample = ids if len(ids) <= 6 else ids[:3] + ids[-3:]
